@@ -101,8 +101,7 @@ Definition is_rfc (pol : policy) : bool := match pol with QuotedRfc => true | _ 
 
 (* NOT implied by good_dlm / table_ok (see table_roundtrip_nl_dlm_refuted): the delimiter has no LF and no CR
    (monocolumn never writes the delimiter) *)
-Definition dlm_nl_free (pol : policy) (dlm : str) : bool :=
-  match pol with Monocolumn => true | _ => negb (CsvSpec.has_newline dlm) end.
+(* dlm_nl_free is defined in CsvSpec.v *)
 
 (* for whitespace (the delimiter is one space) and monocolumn it follows from good_dlm *)
 Lemma good_dlm_nl_free pol dlm : pol = Whitespace \/ pol = Monocolumn -> good_dlm pol dlm = true -> dlm_nl_free pol dlm = true.
